@@ -102,6 +102,106 @@ theorem lca_unchanged_never_wins' (b : α) (ls : List α) (o t : α)
   rw [lca_swap b ls o t true hot] at this
   intro h; rw [h] at this; exact this rfl
 
+/-- the decision as a function of the filtered LCA values only: it looks at
+them through "is it empty", "are they all one value" and membership -/
+def lcaOn (b o t : α) (a : Bool) (f : List α) : Winner :=
+  if f = [] then threeWay b o t
+  else if ∃ v, v ∈ f ∧ ∀ w ∈ f, w = v then
+    (match f with | [] => threeWay b o t | v :: _ => threeWay v o t)
+  else if a then
+    (if o ∈ f then (if t ∈ f then .conflict else .this)
+     else if t ∈ f then .other else .conflict)
+  else .conflict
+
+theorem lca_eq_lcaOn (b : α) (ls : List α) (o t : α) (a : Bool) (h : o ≠ t) :
+    lcaMultiWay b ls o t a = lcaOn b o t a (ls.filter (fun v => v ≠ b)) := by
+  unfold lcaMultiWay lcaOn
+  rw [if_neg h]
+  cases hf : ls.filter (fun v => decide (v ≠ b)) with
+  | nil => rw [if_pos rfl]
+  | cons v rest =>
+    rw [if_neg (List.cons_ne_nil v rest)]
+    by_cases hall : rest.all (fun w => decide (w = v)) = true
+    · have hex : ∃ v', v' ∈ v :: rest ∧ ∀ w ∈ v :: rest, w = v' := by
+        refine ⟨v, List.mem_cons_self, ?_⟩
+        intro w hw
+        rcases List.mem_cons.mp hw with rfl | hw
+        · rfl
+        · exact of_decide_eq_true ((List.all_eq_true.mp hall) w hw)
+      show (if rest.all (fun w => decide (w = v)) = true then _ else _) = _
+      rw [if_pos hall, if_pos hex]
+    · have hnex : ¬ ∃ v', v' ∈ v :: rest ∧ ∀ w ∈ v :: rest, w = v' := by
+        rintro ⟨v', _, hv'⟩
+        apply hall
+        have hv : v = v' := hv' v List.mem_cons_self
+        subst hv
+        rw [List.all_eq_true]
+        intro w hw
+        exact decide_eq_true (hv' w (List.mem_cons_of_mem _ hw))
+      show (if rest.all (fun w => decide (w = v)) = true then _ else _) = _
+      rw [if_neg hall, if_neg hnex]
+
+theorem lcaOn_perm (b o t : α) (a : Bool) (f f' : List α) (hp : f.Perm f') :
+    lcaOn b o t a f = lcaOn b o t a f' := by
+  have hmem : ∀ x, x ∈ f ↔ x ∈ f' := fun x => hp.mem_iff
+  unfold lcaOn
+  by_cases hn : f = []
+  · have hn' : f' = [] := by subst hn; exact List.Perm.eq_nil hp.symm
+    rw [if_pos hn, if_pos hn']
+  · have hn' : ¬ f' = [] := fun h => hn (by subst h; exact List.Perm.eq_nil hp)
+    rw [if_neg hn, if_neg hn']
+    have hex : (∃ v, v ∈ f ∧ ∀ w ∈ f, w = v) ↔ (∃ v, v ∈ f' ∧ ∀ w ∈ f', w = v) := by
+      constructor
+      · rintro ⟨v, hv, hall⟩
+        exact ⟨v, (hmem v).mp hv, fun w hw => hall w ((hmem w).mpr hw)⟩
+      · rintro ⟨v, hv, hall⟩
+        exact ⟨v, (hmem v).mpr hv, fun w hw => hall w ((hmem w).mp hw)⟩
+    by_cases he : ∃ v, v ∈ f ∧ ∀ w ∈ f, w = v
+    · rw [if_pos he, if_pos (hex.mp he)]
+      obtain ⟨v, hv, hall⟩ := he
+      have hall' : ∀ w ∈ f', w = v := fun w hw => hall w ((hmem w).mpr hw)
+      match f, f', hn, hn', hall, hall' with
+      | x :: _, y :: _, _, _, hall, hall' =>
+        have hx : x = v := hall x List.mem_cons_self
+        have hy : y = v := hall' y List.mem_cons_self
+        show threeWay x o t = threeWay y o t
+        rw [hx, hy]
+    · rw [if_neg he, if_neg (fun h => he (hex.mpr h))]
+      by_cases ha : a = true
+      · rw [if_pos ha, if_pos ha]
+        by_cases ho : o ∈ f <;> by_cases ht : t ∈ f
+        · rw [if_pos ho, if_pos ht, if_pos ((hmem o).mp ho), if_pos ((hmem t).mp ht)]
+        · rw [if_pos ho, if_neg ht, if_pos ((hmem o).mp ho), if_neg (fun h => ht ((hmem t).mpr h))]
+        · rw [if_neg ho, if_pos ht, if_neg (fun h => ho ((hmem o).mpr h)), if_pos ((hmem t).mp ht)]
+        · rw [if_neg ho, if_neg ht, if_neg (fun h => ho ((hmem o).mpr h)), if_neg (fun h => ht ((hmem t).mpr h))]
+      · rw [if_neg ha, if_neg ha]
+
+/-- The verdict does not depend on the order of the LCA values: permuting the
+LCA list never changes it (any number of LCAs, any values). -/
+theorem lca_perm (b : α) (ls ls' : List α) (o t : α) (a : Bool) (hp : ls.Perm ls') :
+    lcaMultiWay b ls o t a = lcaMultiWay b ls' o t a := by
+  by_cases hot : o = t
+  · subst hot; rw [lca_tie, lca_tie]
+  · rw [lca_eq_lcaOn b ls o t a hot, lca_eq_lcaOn b ls' o t a hot]
+    exact lcaOn_perm b o t a _ _ (hp.filter _)
+
+/-- Two different ancestor values conflict: if THIS and OTHER each carry a
+(different) non-base LCA value and the LCAs do not all agree, the verdict is a
+conflict — whatever the number or order of LCAs. -/
+theorem lca_two_lca_values_conflict (b : α) (ls : List α) (o t : α)
+    (ho : o ∈ ls) (ht : t ∈ ls) (hob : o ≠ b) (htb : t ≠ b) (hot : o ≠ t) :
+    lcaMultiWay b ls o t true = .conflict := by
+  rw [lca_eq_lcaOn b ls o t true hot]
+  have hof : o ∈ ls.filter (fun v => decide (v ≠ b)) := List.mem_filter.mpr ⟨ho, decide_eq_true hob⟩
+  have htf : t ∈ ls.filter (fun v => decide (v ≠ b)) := List.mem_filter.mpr ⟨ht, decide_eq_true htb⟩
+  generalize ls.filter (fun v => decide (v ≠ b)) = f at hof htf
+  unfold lcaOn
+  have hn : ¬ f = [] := fun h => by subst h; cases hof
+  have hne : ¬ ∃ v, v ∈ f ∧ ∀ w ∈ f, w = v := by
+    rintro ⟨v, _, hall⟩
+    exact hot ((hall o hof).trans (hall t htf).symm)
+  rw [if_neg hn, if_neg hne, if_pos rfl, if_pos hof, if_pos htf]
+
 /-- non-vacuity: concrete instances of the hypotheses -/
 example : lcaMultiWay 0 [1, 2] 1 3 true = .this ∧ (1 : Nat) ∈ [0, 1, 2] ∧ (3 : Nat) ∉ [0, 1, 2] := by decide
 example : lcaMultiWay 0 [1, 1] 1 3 false = threeWay 1 1 3 := by decide
